@@ -1,5 +1,7 @@
 import RbV.Thm.GenSrcWavelet
 import RbV.Thm.GenSrcRankSelect
+import RbV.Thm.GenSrcSelect
+import RbV.Thm.GenSrcWaveletNew
 import RbV.Lemmas.Wavelet
 /-!
 # Composition: the translated `WaveletMatrix::rank` over the translated `RankSelect::rank_0/1`
@@ -71,6 +73,50 @@ theorem levels_ok (bl : List Bool → Nat) (cd8 : Nat → Nat) (code : Nat → N
     subst hr'
     have hlen := (buildLevels_wf code todo text lv (List.mem_of_getElem? hl)).1
     have := RbV.Thm.GenSrcRankSelect.rank_on_superblocks bl cd8 lv.bits 1 (by omega) (by omega) [] i
+    exact this
+
+/-! ### the whole struct, as the translated `RankSelect::new` returns it (gensel) -/
+open RbV.Thm.GenSrcRankSelect (CeilOk)
+
+/-- `struct RankSelect { n, bits, superblocks_1, superblocks_0, s, k }` as the tuple the translation uses -/
+abbrev RSF := Nat × List Bool × List SbRank × List SbRank × Nat × Nat
+
+/-- what `RankSelect::new(bits, 1)` builds (`new_eq_model`) -/
+def mkRSF (bits : List Bool) : RSF :=
+  (bits.length, bits, Model.RankSelect.superblocks true bits.length (1 * 32) (getBlock bits),
+    Model.RankSelect.superblocks false bits.length (1 * 32) (getBlock bits), 1 * 32, 1)
+
+/-- the translated `RankSelect::new` -/
+def srcRsNew (bl : List Bool → Nat) (cd8 : Nat → Nat) (bits : List Bool) (k : Nat) : Res RSF :=
+  Gen.SrcRankSelect.new (σ := SbRank) blockByte List.length bl cd8 SbRank.first SbRank.some SbRank.val bits k
+
+/-- the translated `RankSelect::rank_1` / `rank_0` on the fields of such a struct -/
+def srcRank1F (bl : List Bool → Nat) (cd8 : Nat → Nat) (r : RSF) (i : Nat) : Res (Option Nat) :=
+  Gen.SrcRankSelect.rank1 (σ := SbRank) blockByte List.length bl cd8 SbRank.first SbRank.some SbRank.val
+    r.1 r.2.1 r.2.2.1 r.2.2.2.1 r.2.2.2.2.1 r.2.2.2.2.2 i
+def srcRank0F (bl : List Bool → Nat) (cd8 : Nat → Nat) (r : RSF) (i : Nat) : Res (Option Nat) :=
+  Gen.SrcRankSelect.rank0 (σ := SbRank) blockByte List.length bl cd8 SbRank.first SbRank.some SbRank.val
+    r.1 r.2.1 r.2.2.1 r.2.2.2.1 r.2.2.2.2.1 r.2.2.2.2.2 i
+
+theorem srcRsNew_one (bl : List Bool → Nat) (cd8 : Nat → Nat) (bits : List Bool) (hlen : bits.length < 2 ^ 60)
+    (hcd : CeilOk cd8 bits.length) : srcRsNew bl cd8 bits 1 = Res.ok (mkRSF bits) :=
+  RbV.Thm.GenSrcSelect.new_eq_model bl cd8 bits 1 (by omega) (by omega) hlen hcd
+
+theorem levels_ok_full (bl : List Bool → Nat) (cd8 : Nat → Nat) (code : Nat → Nat) (todo : Nat) (text : List Nat)
+    (hn : text.length < 2 ^ 60) :
+    LevelsOk (srcRank0F bl cd8) (srcRank1F bl cd8) text.length ((buildLevels code todo text).map (·.zeros))
+      ((buildLevels code todo text).map (fun lv => mkRSF lv.bits)) (buildLevels code todo text) where
+  len := by simp
+  zs := rfl
+  wf := fun lv h => buildLevels_wf code todo text lv h
+  rk := by
+    intro level r lv hr hl i
+    rw [List.getElem?_map, hl] at hr
+    have hr' : r = mkRSF lv.bits := (Option.some.inj hr).symm
+    subst hr'
+    have hlen := (buildLevels_wf code todo text lv (List.mem_of_getElem? hl)).1
+    have := RbV.Thm.GenSrcRankSelect.rank_on_superblocks bl cd8 lv.bits 1 (by omega) (by omega)
+      (Model.RankSelect.superblocks false lv.bits.length (1 * 32) (getBlock lv.bits)) i
     exact this
 
 end RbV.Thm.GenSrcWaveletCompose
